@@ -2,6 +2,7 @@
     The handler model interprets the checker chain go2v extracts from sso.go ([Gen.Facts.sso_steps]); the theorems
     hold for every chain satisfying the decidable conditions [wf8] / [wf_order], which the extracted chain does. *)
 From Saml Require Import Base.Bytes Idp.FactTypes Gen.Facts Idp.Sso Idp.Deliver Proofs.SsoProofs.
+From Saml Require Idp.AttrRefine Idp.BuiltDoc Idp.Builder.
 
 Section C08.
 Variable e_form : option form.
@@ -58,9 +59,22 @@ Proof. exact terminal_from_source. Qed.
 Theorem C08_prechecks : precheck_ok sso_pre = true /\ precheck_ok attrquery_pre = true.
 Proof. exact prechecks_from_source. Qed.
 
+(** REFINEMENT: a failure reply of the single sign-on model (send_failed: status, the request ID when it was decoded, the IdP's entity ID,
+    the consumer URL when one was selected) is what the document built by the program translated from makeFailedResponse abstracts to --
+    and it carries no assertion *)
+Theorem C08_failure_refines_model : forall status reqid issuer acs audience message id1 rest issue until,
+  let M := {| fm_status := status; fm_in_response_to := reqid; fm_issuer := issuer; fm_destination := acs |} in
+  BuiltDoc.built_sat "makeFailedResponse" (Some (BuiltDoc.response_rec reqid acs issuer audience)) [Builder.DStr status; Builder.DStr message; Builder.DStr (b "f")] (id1 :: rest) issue until
+    (fun d r => r = rest /\
+       AttrRefine.opt_str (BuiltDoc.at_ d ["Status"; "StatusCode"; "Value"]%string) = fm_status M /\ AttrRefine.opt_str (BuiltDoc.at_ d ["InResponseTo"%string]) = fm_in_response_to M /\
+       AttrRefine.opt_str (BuiltDoc.at_ d ["Issuer"; "Text"]%string) = fm_issuer M /\ AttrRefine.opt_str (BuiltDoc.at_ d ["Destination"%string]) = fm_destination M /\
+       (BuiltDoc.at_ d ["Destination"%string] = None <-> fm_destination M = []) /\ BuiltDoc.at_ d ["Assertion"%string] = None).
+Proof. exact AttrRefine.sso_failed_message_refines. Qed.
+
 Print Assumptions C08_one_outcome.
 Print Assumptions C08_no_panic.
 Print Assumptions C08_current_tree.
 Print Assumptions C08_single_write.
 Print Assumptions C08_terminal.
 Print Assumptions C08_prechecks.
+Print Assumptions C08_failure_refines_model.
